@@ -145,13 +145,18 @@ func runC16(c *Ctx) {
 		multi := false
 		errChecked := false
 		var parse *ast.CallExpr
-		ast.Inspect(fd.Body, func(n ast.Node) bool {
-			call, ok := n.(*ast.CallExpr)
-			if ok && types.ExprString(call.Fun) == "strconv.ParseInt" {
-				parse = call
-			}
-			return true
-		})
+		// the parser may live in getFile itself or in a helper it calls
+		for _, d := range c.declsFrom("names", fd, 2) {
+			d := d
+			ast.Inspect(d.Body, func(n ast.Node) bool {
+				call, ok := n.(*ast.CallExpr)
+				if ok && types.ExprString(call.Fun) == "strconv.ParseInt" && parse == nil {
+					parse = call
+					fd = d
+				}
+				return true
+			})
+		}
 		if parse == nil {
 			c.fail("NAMES-PARSER", fname, "number parser", fd.Pos(), "getFile no longer parses code points with strconv.ParseInt; the rule cannot relate the parser to the data (undecided)")
 		} else {
@@ -202,14 +207,18 @@ func runC16(c *Ctx) {
 		fd := c.funcDecl("names", "glyphMap", "getEncode")
 		fname := "names.(*glyphMap).getEncode"
 		var opened string
-		ast.Inspect(fd.Body, func(n ast.Node) bool {
-			if call, ok := n.(*ast.CallExpr); ok && strings.HasSuffix(types.ExprString(call.Fun), ".Open") && len(call.Args) == 1 {
-				if s, ok := constStrOf(info, call.Args[0]); ok {
-					opened = s
+		for _, d := range c.declsFrom("names", fd, 2) {
+			d := d
+			ast.Inspect(d.Body, func(n ast.Node) bool {
+				if call, ok := n.(*ast.CallExpr); ok && strings.HasSuffix(types.ExprString(call.Fun), ".Open") && len(call.Args) == 1 {
+					if s, ok := constStrOf(info, call.Args[0]); ok && opened == "" {
+						opened = s
+						fd = d
+					}
 				}
-			}
-			return true
-		})
+				return true
+			})
+		}
 		_, err := os.Stat(filepath.Join(repoDir, "type1", "names", opened))
 		c.check(opened != "" && err == nil && strings.HasPrefix(opened, "agl-aglfn/") && strings.HasSuffix(opened, ".txt"), "NAMES-PARSER", fname, "the table opened with a discarded error exists in the embedded file set", fd.Pos(), opened, "getEncode opens `"+opened+"`, which is not in the embedded agl-aglfn/*.txt set: the discarded error hides a nil file")
 		// indices used after SplitN(line, ";", 3): ww[0], ww[1] — data has ≥ 2 fields on every line (checked in NAMES-DATA)
@@ -306,21 +315,25 @@ func runC16(c *Ctx) {
 			c.check(len(bad) == 0 && n > 100, "NAMES-TABLES", "names.compat", "compatibility expansions are injective and never a single character", lit.Pos(), fmt.Sprintf("%d entries", n), joinMax(bad, 4))
 		}
 		// fallback format
-		fd := c.funcDecl("names", "glyphMap", "encode")
+		fd := c.funcDecl("names", "", "FromUnicode")
 		okFmt := false
-		ast.Inspect(fd.Body, func(n ast.Node) bool {
-			if call, ok := n.(*ast.CallExpr); ok && types.ExprString(call.Fun) == "fmt.Sprintf" {
-				if s, ok := constStrOf(info, call.Args[0]); ok && s == "u%04X" {
-					okFmt = true
+		nFmt := 0
+		for _, d := range c.declsFrom("names", fd, 2) {
+			ast.Inspect(d.Body, func(n ast.Node) bool {
+				if call, ok := n.(*ast.CallExpr); ok && types.ExprString(call.Fun) == "fmt.Sprintf" {
+					nFmt++
+					if s, ok := constStrOf(info, call.Args[0]); ok && s == "u%04X" {
+						okFmt = true
+					}
 				}
-			}
-			return true
-		})
-		c.check(okFmt, "NAMES-TABLES", "names.(*glyphMap).encode", "fallback name = u + at least four upper-case hexadecimal digits", fd.Pos(), `"u%04X"`, "the fallback glyph name is not produced with u%04X (upper case, zero padded): ToUnicode would not map it back")
+				return true
+			})
+		}
+		c.check(okFmt && nFmt == 1, "NAMES-TABLES", "names.FromUnicode", "fallback name = u + at least four upper-case hexadecimal digits", fd.Pos(), `"u%04X"`, "the fallback glyph name is not produced with u%04X (upper case, zero padded): ToUnicode would not map it back")
 	}
 
-	c.isValidGrammar(info)
-	c.toUnicodeGrammar(info)
+	c.isValidGrammarSSA()
+	c.toUnicodeGrammarSSA()
 }
 
 // intSet evaluates a boolean expression over one integer variable for the given values.
@@ -722,4 +735,50 @@ func constStrArg(info *types.Info, e ast.Expr, fn string) (string, bool) {
 		return true
 	})
 	return res, ok
+}
+
+// declsFrom returns the declaration fd together with the declarations of the functions and
+// methods of the same package it calls, transitively to the given depth.
+func (c *Ctx) declsFrom(pkg string, fd *ast.FuncDecl, depth int) []*ast.FuncDecl {
+	p := c.pkg(pkg)
+	byObj := map[types.Object]*ast.FuncDecl{}
+	for _, f := range p.Syntax {
+		for _, d := range f.Decls {
+			if x, ok := d.(*ast.FuncDecl); ok && x.Body != nil {
+				byObj[p.TypesInfo.Defs[x.Name]] = x
+			}
+		}
+	}
+	seen := map[*ast.FuncDecl]bool{fd: true}
+	out := []*ast.FuncDecl{fd}
+	frontier := []*ast.FuncDecl{fd}
+	for k := 0; k < depth; k++ {
+		var next []*ast.FuncDecl
+		for _, d := range frontier {
+			ast.Inspect(d.Body, func(n ast.Node) bool {
+				call, ok := n.(*ast.CallExpr)
+				if !ok {
+					return true
+				}
+				var id *ast.Ident
+				switch f := call.Fun.(type) {
+				case *ast.Ident:
+					id = f
+				case *ast.SelectorExpr:
+					id = f.Sel
+				}
+				if id == nil {
+					return true
+				}
+				if g := byObj[p.TypesInfo.Uses[id]]; g != nil && !seen[g] {
+					seen[g] = true
+					out = append(out, g)
+					next = append(next, g)
+				}
+				return true
+			})
+		}
+		frontier = next
+	}
+	return out
 }
